@@ -745,3 +745,226 @@ Qed.
 
 Definition directory_of_file (bs : list N) : option (list (list N * N * N)) :=
   match snd (deserialize max_u64 bs) with Ok rd => Some (directory rd) | _ => None end.
+(* ------------------------------------------------------------------ C14: the reader on arbitrary bytes *)
+Lemma read_name_shorter : forall cur nm r, read_name cur = Some (nm, r) -> (length r < length cur)%nat.
+Proof.
+  induction cur as [|b cur']; intros nm r H; cbn [read_name] in H; [discriminate|].
+  destruct (b =? ar_name_term_r).
+  - inversion H; subst. cbn [length]. lia.
+  - destruct (read_name cur') as [[nm' r']|] eqn:E; [|discriminate]. inversion H; subst.
+    specialize (IHcur' _ _ eq_refl). cbn [length]. lia.
+Qed.
+
+Lemma read_parts_safe : forall fuel n fs cur, (length cur < fuel)%nat ->
+  match read_parts fuel n fs cur with
+  | Ok (ps, c) => (length c <= length cur)%nat /\ Forall (part_fits fs) ps
+  | Err => True
+  | Panic => False
+  end.
+Proof.
+  induction fuel as [|f IH]; intros n fs cur Hf; [lia|].
+  cbn [read_parts]. destruct (n =? 0); [split; [lia | constructor]|].
+  destruct (read_varint cur) as [[[off k1] c1]| |] eqn:E1; cbn [obnd]; [|exact I|exact (read_varint_no_panic _ E1)].
+  apply read_varint_consumes in E1.
+  destruct (read_varint c1) as [[[sz k2] c2]| |] eqn:E2; cbn [obnd]; [|exact I|exact (read_varint_no_panic _ E2)].
+  apply read_varint_consumes in E2.
+  unfold add_u64. destruct (off + sz <? two64) eqn:E3; [|exact I].
+  destruct (fs <? off + sz) eqn:E4; [exact I|].
+  specialize (IH (n - 1) fs c2 ltac:(lia)).
+  destruct (read_parts f (n - 1) fs c2) as [[ps c3]| |]; cbn [obnd]; [|exact I|contradiction].
+  destruct IH as [I1 I2]. split; [lia|]. constructor; [|assumption]. unfold part_fits. cbn [p_off p_size]. lia.
+Qed.
+
+Definition rs_fits (fs : N) (rs : rstream) : Prop := Forall (part_fits fs) (rs_parts rs).
+
+Lemma read_streams_safe : forall fuel n fs cur, (length cur < fuel)%nat ->
+  match read_streams fuel n fs cur with
+  | Ok sts => Forall (rs_fits fs) sts
+  | Err => True
+  | Panic => False
+  end.
+Proof.
+  induction fuel as [|f IH]; intros n fs cur Hf; [lia|].
+  cbn [read_streams]. destruct (n =? 0); [constructor|].
+  destruct (read_name cur) as [[nm c1]|] eqn:E0; [|exact I]. apply read_name_shorter in E0.
+  destruct (read_varint c1) as [[[np k1] c2]| |] eqn:E1; cbn [obnd]; [|exact I|exact (read_varint_no_panic _ E1)].
+  apply read_varint_consumes in E1.
+  destruct (read_varint c2) as [[[raw k2] c3]| |] eqn:E2; cbn [obnd]; [|exact I|exact (read_varint_no_panic _ E2)].
+  apply read_varint_consumes in E2.
+  pose proof (read_parts_safe (S (length c3)) np fs c3 ltac:(lia)) as P.
+  destruct (read_parts (S (length c3)) np fs c3) as [[ps c4]| |]; cbn [obnd]; [|exact I|contradiction].
+  destruct P as [P1 P2].
+  specialize (IH (n - 1) fs c4 ltac:(lia)).
+  destruct (read_streams f (n - 1) fs c4) as [rest| |]; cbn [obnd]; [|exact I|contradiction].
+  constructor; [exact P2 | exact IH].
+Qed.
+
+Lemma parse_footer_safe : forall fs footer,
+  match parse_footer fs footer with
+  | Ok sts => Forall (rs_fits fs) sts
+  | Err => True
+  | Panic => False
+  end.
+Proof.
+  intros. unfold parse_footer.
+  destruct (read_varint footer) as [[[ns k] cur]| |] eqn:E; cbn [obnd]; [|exact I|exact (read_varint_no_panic _ E)].
+  apply read_streams_safe. lia.
+Qed.
+
+Definition rd_ok (bs : list N) (rd : reader) : Prop :=
+  r_file rd = bs /\ Forall (rs_fits (lenN bs)) (r_streams rd).
+
+Lemma rs_fits_mono : forall a b rs, a <= b -> rs_fits a rs -> rs_fits b rs.
+Proof.
+  intros a b rs H F. unfold rs_fits in *. eapply Forall_impl; [|eassumption]. unfold part_fits. intros. lia.
+Qed.
+
+Lemma deserialize_safe : forall max_off bs,
+  Forall (fun a => a <= lenN bs) (fst (deserialize max_off bs)) /\
+  match snd (deserialize max_off bs) with
+  | Ok rd => rd_ok bs rd
+  | Err => True
+  | Panic => False
+  end.
+Proof.
+  intros max_off bs. destruct (lenN bs <? 8) eqn:E.
+  - rewrite deserialize_short by lia. cbn [fst snd]. split; [constructor | exact I].
+  - rewrite deserialize_unfold by lia. cbv zeta.
+    destruct (lenN bs - 8 <? footer_len bs) eqn:E1; [cbn [fst snd]; split; [constructor | exact I]|].
+    destruct (max_off <? lenN bs - 8 - footer_len bs) eqn:E2; [cbn [fst snd]; split; [constructor | exact I]|].
+    cbn [fst snd]. split; [constructor; [lia | constructor]|].
+    pose proof (parse_footer_safe (lenN bs - 8 - footer_len bs)
+                  (firstnN (footer_len bs) (skipnN (lenN bs - 8 - footer_len bs) bs))) as P.
+    destruct (parse_footer (lenN bs - 8 - footer_len bs) (firstnN (footer_len bs) (skipnN (lenN bs - 8 - footer_len bs) bs)));
+      cbn [obnd]; [|exact I|contradiction].
+    split; [reflexivity|]. cbn [r_streams]. eapply Forall_impl; [|exact P]. intros rs. apply rs_fits_mono. lia.
+Qed.
+
+Theorem open_total_safe_proof : forall max_off bs, snd (deserialize max_off bs) <> Panic.
+Proof.
+  intros max_off bs H. destruct (deserialize_safe max_off bs) as [_ S]. rewrite H in S. exact S.
+Qed.
+
+Theorem alloc_bounded_proof : forall max_off bs, Forall (fun a => a <= lenN bs) (fst (deserialize max_off bs)).
+Proof. intros. apply deserialize_safe. Qed.
+
+Lemma read_part_data_safe : forall max_off file p, p_size p <= lenN file ->
+  Forall (fun a => a <= lenN file) (fst (read_part_data max_off file p)) /\ snd (read_part_data max_off file p) <> Panic.
+Proof.
+  intros max_off file p H. unfold read_part_data.
+  destruct (p_size p =? 0); [cbn [fst snd]; split; [constructor | discriminate]|].
+  destruct (file_seek_start max_off (p_off p)); [|cbn [fst snd]; split; [constructor | discriminate]].
+  destruct (read_varint (skipnS n file)) as [[[m k] c]| |] eqn:E.
+  - cbn [fst snd]. split; [constructor; [assumption | constructor]|]. destruct (p_size p <=? lenN c); discriminate.
+  - cbn [fst snd]. split; [constructor | discriminate].
+  - exfalso. exact (read_varint_no_panic _ E).
+Qed.
+
+Lemma nthN_in : forall {A} (l : list A) i x, nthN l i = Some x -> In x l.
+Proof. intros. unfold nthN in *. eapply nth_error_In. eassumption. Qed.
+
+Lemma rstep_safe : forall max_off bs rd o, rd_ok bs rd ->
+  rd_ok bs (fst (rstep max_off rd o)) /\
+  Forall (fun a => a <= lenN bs) (fst (snd (rstep max_off rd o))) /\ snd (snd (rstep max_off rd o)) <> Panic.
+Proof.
+  intros max_off bs rd o [Hf Hs]. destruct o as [sid | sid pid]; cbn [rstep].
+  - unfold get_part. rewrite nthS_eq. destruct (nthN (r_streams rd) sid) as [rs|] eqn:E1.
+    + rewrite nthS_eq. destruct (nthN (rs_parts rs) (rs_cur rs)) as [p|] eqn:E2.
+      * assert (Hp : p_size p <= lenN bs).
+        { apply nthN_in in E1. apply nthN_in in E2. rewrite Forall_forall in Hs. specialize (Hs rs E1).
+          unfold rs_fits in Hs. rewrite Forall_forall in Hs. specialize (Hs p E2). unfold part_fits in Hs. lia. }
+        rewrite Hf. destruct (read_part_data_safe max_off bs p Hp) as [S1 S2].
+        destruct (read_part_data max_off bs p) as [al res]. cbn [fst snd] in *. split; [|split].
+        -- split; [reflexivity|]. cbn [r_streams]. apply Forall_upd_nth; [assumption|]. intros a Ha. exact Ha.
+        -- assumption.
+        -- destruct res; cbn [obnd]; try discriminate. contradiction.
+      * cbn [fst snd]. split; [split; assumption|]. split; [constructor | discriminate].
+    + cbn [fst snd]. split; [split; assumption|]. split; [constructor | discriminate].
+  - cbn [fst snd]. split; [split; assumption|]. unfold get_part_by_id. rewrite nthS_eq.
+    destruct (nthN (r_streams rd) sid) as [rs|] eqn:E1; [|cbn [fst snd]; split; [constructor | discriminate]].
+    rewrite nthS_eq. destruct (nthN (rs_parts rs) pid) as [p|] eqn:E2; [|cbn [fst snd]; split; [constructor | discriminate]].
+    assert (Hp : p_size p <= lenN bs).
+    { apply nthN_in in E1. apply nthN_in in E2. rewrite Forall_forall in Hs. specialize (Hs rs E1).
+      unfold rs_fits in Hs. rewrite Forall_forall in Hs. specialize (Hs p E2). unfold part_fits in Hs. lia. }
+    rewrite Hf. destruct (read_part_data_safe max_off bs p Hp) as [S1 S2].
+    destruct (read_part_data max_off bs p) as [al res]. cbn [fst snd] in *. split; [assumption|].
+    destruct res; cbn [obnd]; try discriminate. contradiction.
+Qed.
+
+Theorem reads_alloc_bounded_proof : forall max_off bs rd, snd (deserialize max_off bs) = Ok rd ->
+  forall rops, Forall (fun x => Forall (fun a => a <= lenN bs) (fst x) /\ snd x <> Panic) (rrun max_off rd rops).
+Proof.
+  intros max_off bs rd H rops. destruct (deserialize_safe max_off bs) as [_ S]. rewrite H in S. clear H.
+  revert rd S. induction rops as [|o r]; intros rd S; cbn [rrun]; [constructor|].
+  destruct (rstep_safe max_off bs rd o S) as (S1 & S2 & S3).
+  destruct (rstep max_off rd o) as [rd' x]. cbn [fst snd] in *. constructor; [split; assumption|]. apply IHr. assumption.
+Qed.
+
+Theorem open_ok_iff_proof : forall max_off bs,
+  (exists rd, snd (deserialize max_off bs) = Ok rd) <->
+  (8 <= lenN bs /\
+   let fsz := le_value (skipnN (lenN bs - 8) bs) in
+   fsz <= lenN bs - 8 /\ lenN bs - 8 - fsz <= max_off /\
+   exists sts, parse_footer (lenN bs - 8 - fsz) (firstnN fsz (skipnN (lenN bs - 8 - fsz) bs)) = Ok sts).
+Proof.
+  intros max_off bs. fold (footer_len bs). cbv zeta. destruct (lenN bs <? 8) eqn:E.
+  - rewrite deserialize_short by lia. cbn [snd]. split; [intros [rd H]; discriminate | intros [H _]; lia].
+  - rewrite deserialize_unfold by lia. cbv zeta.
+    destruct (lenN bs - 8 <? footer_len bs) eqn:E1.
+    { cbn [snd]. split; [intros [rd H]; discriminate | intros (_ & H & _); lia]. }
+    destruct (max_off <? lenN bs - 8 - footer_len bs) eqn:E2.
+    { cbn [snd]. split; [intros [rd H]; discriminate | intros (_ & _ & H & _); lia]. }
+    cbn [snd].
+    destruct (parse_footer (lenN bs - 8 - footer_len bs) (firstnN (footer_len bs) (skipnN (lenN bs - 8 - footer_len bs) bs)))
+      as [sts| |]; cbn [obnd].
+    + split; [intros _ | intros _; eexists; reflexivity]. repeat split; try lia. eexists; reflexivity.
+    + split; [intros [rd H]; discriminate | intros (_ & _ & _ & sts & H); discriminate].
+    + split; [intros [rd H]; discriminate | intros (_ & _ & _ & sts & H); discriminate].
+Qed.
+
+Theorem prefix_rejected_partial_proof : forall bs n max_off, n <= lenN bs ->
+  n < 8 \/ n - 8 < le_value (skipnN (n - 8) (firstnN n bs)) ->
+  deserialize max_off (firstnN n bs) = ([], Err).
+Proof.
+  intros bs n max_off Hn H. pose proof (lenN_firstnN n bs Hn) as L.
+  destruct (n <? 8) eqn:E.
+  - apply deserialize_short. lia.
+  - destruct H as [H | H]; [lia|]. rewrite deserialize_unfold by lia. cbv zeta. unfold footer_len. rewrite L.
+    destruct (n - 8 <? le_value (skipnN (n - 8) (firstnN n bs))) eqn:E1; [reflexivity | lia].
+Qed.
+
+Lemma le_value_app : forall a b, le_value (a ++ b) = le_value a + 256 ^ lenN a * le_value b.
+Proof.
+  induction a; intros b; cbn [app le_value].
+  - change (lenN (@nil N)) with 0. change (256 ^ 0) with 1. lia.
+  - rewrite IHa, lenN_cons. replace (1 + lenN a0) with (N.succ (lenN a0)) by lia. rewrite N.pow_succ_r'. lia.
+Qed.
+
+Lemma firstn_le_bytes : forall j n v, (j <= n)%nat -> firstn j (le_bytes n v) = le_bytes j v.
+Proof.
+  induction j; intros n v H; [reflexivity|]. destruct n; [lia|]. cbn [le_bytes firstn]. rewrite IHj by lia. reflexivity.
+Qed.
+
+Theorem prefix_rejected_trailer_partial_proof : forall w k max_off, 1 <= k <= 7 ->
+  lenN (footer_of w) < 256 ^ (8 - k) ->
+  lenN (close w) <= 256 ^ k * lenN (footer_of w) ->
+  deserialize max_off (firstnN (lenN (close w) - k) (close w)) = ([], Err).
+Proof.
+  intros w k max_off Hk HF HA. pose proof (close_len w) as HL.
+  set (DF := w_bytes w ++ footer_of w). set (F := lenN (footer_of w)) in *.
+  assert (HC : close w = DF ++ le_bytes 8 F) by (unfold close, DF, write_fixed_u64; cbv zeta; rewrite app_assoc; reflexivity).
+  assert (HDF : lenN DF = lenN (close w) - 8) by (unfold DF; rewrite lenN_app; fold F; lia).
+  assert (HP : firstnN (lenN (close w) - k) (close w) = DF ++ le_bytes (N.to_nat (8 - k)) F).
+  { rewrite HC at 2. unfold firstnN. rewrite firstn_app. rewrite firstn_all2 by (unfold lenN in *; lia).
+    f_equal. replace (N.to_nat (lenN (close w) - k) - length DF)%nat with (N.to_nat (8 - k)) by (unfold lenN in *; lia).
+    apply firstn_le_bytes. lia. }
+  apply prefix_rejected_partial_proof; [lia|].
+  destruct (lenN (close w) - k <? 8) eqn:E; [left; lia | right].
+  rewrite HP. unfold skipnN. rewrite skipn_app.
+  replace (N.to_nat (lenN (close w) - k - 8) - length DF)%nat with 0%nat by (unfold lenN in *; lia).
+  cbn [skipn]. rewrite le_value_app, le_value_bytes.
+  replace (N.of_nat (N.to_nat (8 - k))) with (8 - k) by lia. rewrite (N.mod_small F) by assumption.
+  assert (HU : lenN (skipn (N.to_nat (lenN (close w) - k - 8)) DF) = k).
+  { unfold lenN in *. rewrite skipn_length. lia. }
+  rewrite HU. lia.
+Qed.
